@@ -272,7 +272,7 @@ def run(ctx):
            "final frame state validated", vfe.where())
     ctx.analysed(vfe)
 
-    ctx.floor("C15 obligations", len(ctx.obligations), 50)
+    ctx.floor("C15 obligations", len(ctx.obligations), 40)
     _controls(ctx, F)
 
 
